@@ -1,7 +1,7 @@
 #!/bin/bash
 # usage: tools_allchecks.sh <seed> [tier]  -> one line per check
 SEED=${1:-0}; TIER=${2:-quick}
-cd /verif
+cd "$(dirname "$0")"
 for id in $(./check --list); do
   s=$(date +%s)
   out=$(VERIF_SEED=$SEED ./check $id --tier $TIER 2>&1)
